@@ -5,7 +5,9 @@ META = {
     "explanation": "Static structural analysis of cascade.shm.dataset.Manager by abstract interpretation over small model stores: admission "
                    "table of add() over all orderings of size/free/capacity and key presence; get() per status (page-in only if it fits, space "
                    "reserved when issued); completion callbacks of page-out and page-in credit/return a dataset's size exactly once in every "
-                   "outcome; purge accounting; writers of capacity/free_space confined to the Manager; the server reports the manager's figure. "
+                   "outcome; purge accounting; writers of capacity/free_space confined to the Manager; the server loop serves each request class with the "
+                   "matching Manager operation on the request's fields and returns its verdict unchanged ('wait' stays 'wait', refusals stay "
+                   "refusals, free space is the manager's figure) to the requesting client exactly once. "
                    "Not decided: the instantaneous invariant under every interleaving of the disk threads with requests.",
     "assumptions": ["SharedMemory and the disk pool are opaque; one dataset per model store"],
 }
